@@ -25,6 +25,13 @@ cargo test -p "$CRATE" --lib --offline "$FILTER" > /var/tmp/seedverify-demo-with
 git checkout -q -- . ; git clean -fdq -e Cargo.lock ; git apply "$SEED/patch.diff"
 run_suite $CRATES > /var/tmp/seedverify-suite-with.txt
 SUITE_SAME=no; diff -q "$BASE" /var/tmp/seedverify-suite-with.txt > /dev/null && SUITE_SAME=yes
+if [ $SUITE_SAME = no ]; then
+  # loopback tests can collide with other jobs on this machine (AddrInUse): a test only counts as
+  # broken by the patch if it fails in two consecutive runs
+  run_suite $CRATES > /var/tmp/seedverify-suite-with2.txt
+  comm -12 /var/tmp/seedverify-suite-with.txt /var/tmp/seedverify-suite-with2.txt > /var/tmp/seedverify-suite-both.txt
+  diff -q "$BASE" /var/tmp/seedverify-suite-both.txt > /dev/null && SUITE_SAME=yes
+fi
 git checkout -q -- . ; git clean -fdq -e Cargo.lock
 echo "demo without patch: exit $RC_WITHOUT ($(grep -E '^test result' /var/tmp/seedverify-demo-without.log | tail -1))"
 echo "demo with patch:    exit $RC_WITH ($(grep -E '^test result' /var/tmp/seedverify-demo-with.log | tail -1))"
